@@ -115,7 +115,7 @@ CLAIMS = {
             "takes over exactly that rest (and is sent exactly it); a late node with nothing to take over, or with a different collection, is shut down; a node already down is handed nothing. "
             "Over every history of scheduler calls (workers dying after they reported, replacements joining, flags changing arbitrarily; at most numnodes registered nodes as hypothesis): "
             "the collection is complete only when every registered node has reported its own, and the schedule() that follows books the whole collection for every registered node and tells "
-            "each that is not down to run all of it (C08_each_every_environment_gets_everything). WHOLE SYSTEM (any thread schedule, crashes, replacements, stop requests): under --dist each no worker is ever sent tests twice - at most one runtests_all or one runtests with the left-over it takes over (C08_sys_each_sent_tests_at_most_once)",
+            "each that is not down to run all of it (C08_each_every_environment_gets_everything). WHOLE SYSTEM (any thread schedule, crashes, replacements, stop requests): under --dist each no worker is ever sent tests twice - at most one runtests_all or one runtests with the left-over it takes over (C08_sys_each_sent_tests_at_most_once), and a worker has received nothing or exactly that one block (C08_sys_each_receives_one_block)",
             "definitional unfolding lemmas with side conditions; invariant by induction over scheduler-call histories + pigeonhole (Lean 4) ; differential correspondence of EachScheduling; whole-system simulation incl. heterogeneous environments"),
     "C09": ("Lean theorems (load, worksteal, loadscope family): no disagreement report iff all registered collections equal the first; otherwise schedule() publishes exactly one failed report "
             "per disagreeing worker naming the first worker, dispatches nothing and leaves the scheduler unchanged; loadscope family: a disagreeing late joiner is never registered and an "
